@@ -13,7 +13,7 @@ RULE = ("strings over the alphabet {a,b,/,*,?,.}: exhaustive up to a length boun
         "three cases disagree with plain equality")
 ASSUMPTIONS = ["glob(3)/fnmatch(3) of glibc are modelled for *, ?, bracket expressions, backslash escapes, brace alternatives (GLOB_BRACE), "
                "literals and the leading-period rule; character classes ([:alpha:]) and collating elements are not generated",
-               "fs root strings contain no glob metacharacters"]
+               "a tenth of the resolve trees put the cgroup-fs root at a directory whose own name contains a glob metacharacter (f[s], f?, f*, f\\s, {fs,zz}, f[!a]; half of them next to the directory the unescaped name would match): the root is a place, not a pattern (found and repaired: /repo f51bd03); the scratch directory above the root has no such characters"]
 TRUSTED = ["glibc glob(3) (modelled, validated by the correspondence run)"]
 EXHAUSTIVE = {"quick": True, "thorough": True}
 
@@ -189,9 +189,22 @@ def gen(rng, tier):
         dirs, files = rand_tree(rng)
         # non-directories of other file types (unix sockets and block devices share a mode bit with directories)
         fkinds = {f: rng.choice(["sock", "sock", "fifo", "blk"]) for f in files if rng.random() < 0.35}
-        yield {"kind": "resolve", "dirs": dirs, "files": files, "fkinds": fkinds, "fsAt": "r/p/fs",
-               "pattern": rand_pattern(rng) if rng.random() < 0.3 else pattern_from_tree(rng, dirs, files),
-               "fs_trailing_slash": rng.random() < 0.2}
+        sc = {"kind": "resolve", "dirs": dirs, "files": files, "fkinds": fkinds, "fsAt": "r/p/fs",
+              "pattern": rand_pattern(rng) if rng.random() < 0.3 else pattern_from_tree(rng, dirs, files),
+              "fs_trailing_slash": rng.random() < 0.2}
+        if rng.random() < 0.1:
+            # a cgroup-fs root whose own name contains a character glob(3) interprets: the root is a place, not a pattern.
+            # Half of the time a directory the root would match as a pattern sits next to it, with the same content.
+            meta = rng.choice(["f[s]", "f?", "f*", "f\\s", "{fs,zz}", "f[!a]"])
+            ren = lambda q: meta + q[len("r/p/fs"):] if False else q
+            def mv(q):
+                return "r/p/" + meta + q[len("r/p/fs"):] if (q == "r/p/fs" or q.startswith("r/p/fs/")) else q
+            twin = rng.random() < 0.5
+            nd = [mv(d) for d in dirs] + ([d for d in dirs if d == "r/p/fs" or d.startswith("r/p/fs/")] if twin else [])
+            nf = [mv(f) for f in files] + ([f for f in files if f.startswith("r/p/fs/")] if twin else [])
+            sc.update(dirs=sorted(set(nd)), files=sorted(set(nf)), fsAt="r/p/" + meta,
+                      fkinds={mv(k): v for k, v in fkinds.items()})
+        yield sc
 
 
 def nontrivial(s, t, v):
